@@ -436,10 +436,14 @@ pub(crate) mod shared {
     }
 
     pub(crate) async fn read(&self) -> RwLockReadGuard<'_, T> {
+      #[cfg(feature = "verif-hooks")]
+      crate::verif_hooks::sched_point(crate::verif_hooks::BEFORE_READ);
       self.0.read().await
     }
 
     pub(crate) async fn write(&self) -> RwLockWriteGuard<'_, T> {
+      #[cfg(feature = "verif-hooks")]
+      crate::verif_hooks::sched_point(crate::verif_hooks::BEFORE_WRITE);
       self.0.write().await
     }
   }
